@@ -27,9 +27,32 @@ theorem results_normal (a b : Value) : Normal (add a b) ∧ Normal (sub a b) :=
 theorem results_wf (a b : Value) (ha : WF a) : WF (add a b) ∧ WF (sub a b) :=
   ⟨MultiAsset.wf_add _ _ ha, MultiAsset.wf_sub _ _ ha⟩
 
-/-- `==` is component-wise equality on normal values (what every arithmetic result and decode is) -/
-theorem eq_componentwise (a b : Value) (ha : WF a) (hb : WF b) (na : Normal a) (nb : Normal b) :
-    eq a b = true ↔ (a.coin = b.coin ∧ ∀ p n, qty a p n = qty b p n) := Value.eq_iff a b ha hb na nb
+/-- `==` is component-wise equality of contents (an asset absent on either side counts as 0, a policy absent on either
+side as an empty `Asset`) — for ALL operands: no well-formedness or normality hypothesis; repeated keys, empty
+policies, stored zeros and negative quantities on either side included.  (`Asset.__eq__` / `MultiAsset.__eq__` compare
+over the union of the keys, like the repaired `<=`; before the repair they compared the stored dicts — length, then
+entry by entry — so `Value(5, {p: {n: 0}}) != Value(5)`.) -/
+theorem eq_iff (a b : Value) :
+    eq a b = true ↔ (a.coin = b.coin ∧ ∀ p n, qty a p n = qty b p n) := Value.eq_iff a b
+
+/-- (the name under which earlier revisions stated it, with hypotheses that are no longer needed) -/
+theorem eq_componentwise (a b : Value) :
+    eq a b = true ↔ (a.coin = b.coin ∧ ∀ p n, qty a p n = qty b p n) := Value.eq_iff a b
+
+/-- `==` is an equivalence relation on all operands -/
+theorem eq_refl (a : Value) : eq a a = true := (eq_iff a a).2 ⟨rfl, fun _ _ => rfl⟩
+theorem eq_symm (a b : Value) (h : eq a b = true) : eq b a = true := by
+  rw [eq_iff] at h ⊢; exact ⟨h.1.symm, fun p n => (h.2 p n).symm⟩
+theorem eq_trans (a b c : Value) (h1 : eq a b = true) (h2 : eq b c = true) : eq a c = true := by
+  rw [eq_iff] at h1 h2 ⊢; exact ⟨h1.1.trans h2.1, fun p n => (h1.2 p n).trans (h2.2 p n)⟩
+
+/-- the inputs on which `==` was not component-wise before the repair, now answered by content: a stored zero, an empty
+policy, both on either side; and a genuine difference is still a difference -/
+example : eq ⟨5, [([1], [([2], 0)])]⟩ ⟨5, []⟩ = true ∧ eq ⟨5, []⟩ ⟨5, [([1], [([2], 0)])]⟩ = true := by decide
+example : eq ⟨5, [([1], [])]⟩ ⟨5, []⟩ = true ∧ eq ⟨5, [([1], [([2], 3), ([3], 0)])]⟩ ⟨5, [([4], []), ([1], [([2], 3)])]⟩ = true := by
+  decide
+example : eq ⟨5, [([1], [([2], 3)])]⟩ ⟨5, [([1], [([2], 4)])]⟩ = false ∧ eq ⟨5, [([1], [([2], 3)])]⟩ ⟨5, []⟩ = false ∧
+    eq ⟨5, []⟩ ⟨5, [([1], [([2], -1)])]⟩ = false ∧ eq ⟨5, []⟩ ⟨6, []⟩ = false := by decide
 
 /-- `<=` is the component-wise order (an asset absent on either side counts as 0) — for ALL operands: no
 well-formedness, normality or sign hypothesis; repeated keys, empty policies, stored zeros and negative quantities
@@ -38,23 +61,22 @@ repair they iterated over the keys of the left operand only: KF-C05-le-negative.
 theorem le_iff (a b : Value) :
     Value.le a b = true ↔ a.coin ≤ b.coin ∧ ∀ p n, qty a p n ≤ qty b p n := Value.le_iff a b
 
-/-- `<` is `<=` and not `==` — for ALL operands (`Value.__lt__` is exactly that composition; `==` on operands that
-store zeros or empty policies is not component-wise, see `eq_componentwise`) -/
+/-- `<` is `<=` and not `==` — for ALL operands (`Value.__lt__` is exactly that composition) -/
 theorem lt_iff_le_ne (a b : Value) :
     Value.lt a b = true ↔ (a.coin ≤ b.coin ∧ ∀ p n, qty a p n ≤ qty b p n) ∧ Value.eq a b = false :=
   Value.lt_iff_le_ne a b
 
-/-- `<` is the strict component-wise order on normal values (the hypotheses are those of `eq_componentwise`) -/
-theorem lt_iff (a b : Value) (ha : WF a) (hb : WF b) (na : Normal a) (nb : Normal b) :
+/-- `<` is the strict component-wise order — for ALL operands -/
+theorem lt_iff (a b : Value) :
     Value.lt a b = true ↔
       (a.coin ≤ b.coin ∧ ∀ p n, qty a p n ≤ qty b p n) ∧ ¬ (a.coin = b.coin ∧ ∀ p n, qty a p n = qty b p n) :=
-  Value.lt_iff a b ha hb na nb
+  Value.lt_iff a b
 
 /-- … i.e. `≤` everywhere and `<` somewhere -/
-theorem lt_iff_strict (a b : Value) (ha : WF a) (hb : WF b) (na : Normal a) (nb : Normal b) :
+theorem lt_iff_strict (a b : Value) :
     Value.lt a b = true ↔
       (a.coin ≤ b.coin ∧ ∀ p n, qty a p n ≤ qty b p n) ∧ (a.coin < b.coin ∨ ∃ p n, qty a p n < qty b p n) := by
-  rw [lt_iff a b ha hb na nb]
+  rw [lt_iff a b]
   constructor
   · rintro ⟨hle, hne⟩
     refine ⟨hle, ?_⟩
@@ -109,12 +131,11 @@ example : le ⟨1, [([1], [([2], 3)])]⟩ ⟨1, [([1], [([2], 3), ([3], 1)]), ([
     le ⟨1, [([1], [([2], 3)])]⟩ ⟨1, [([4], [([2], 9)])]⟩ = false ∧
     le ⟨1, [([1], [([2], 4)])]⟩ ⟨1, [([1], [([2], 3)])]⟩ = false := by decide
 
-private theorem same_eq (x y : Value) (hx : WF x) (hy : WF y) (nx : Normal x) (ny : Normal y)
-    (h : Same x y) : eq x y = true := (Value.eq_iff x y hx hy nx ny).2 h
+private theorem same_eq (x y : Value) (h : Same x y) : eq x y = true := (Value.eq_iff x y).2 h
 
 /-- a + b == b + a -/
 theorem add_comm (a b : Value) (ha : WF a) (hb : WF b) : eq (add a b) (add b a) = true := by
-  apply same_eq _ _ (results_wf a b ha).1 (results_wf b a hb).1 (results_normal a b).1 (results_normal b a).1
+  apply same_eq
   refine ⟨?_, fun p n => ?_⟩
   · simp [add, Int.add_comm]
   · rw [(add_exact a b ha hb).2, (add_exact b a hb ha).2, Int.add_comm]
@@ -124,24 +145,24 @@ theorem add_assoc (a b c : Value) (ha : WF a) (hb : WF b) (hc : WF c) :
     eq (add (add a b) c) (add a (add b c)) = true := by
   have hab := (results_wf a b ha).1
   have hbc := (results_wf b c hb).1
-  apply same_eq _ _ (results_wf _ c hab).1 (results_wf a _ ha).1 (results_normal _ _).1 (results_normal _ _).1
+  apply same_eq
   refine ⟨?_, fun p n => ?_⟩
   · simp [add, Int.add_assoc]
   · rw [(add_exact _ c hab hc).2, (add_exact a b ha hb).2, (add_exact a _ ha hbc).2, (add_exact b c hb hc).2,
       Int.add_assoc]
 
-/-- a + b - b == a  (for normal `a`: `==` itself distinguishes a stored zero from an absent entry) -/
-theorem add_sub_cancel (a b : Value) (ha : WF a) (hb : WF b) (na : Normal a) :
+/-- a + b - b == a  (for every well-formed `a`, normal or not: `==` compares contents) -/
+theorem add_sub_cancel (a b : Value) (ha : WF a) (hb : WF b) :
     eq (sub (add a b) b) a = true := by
   have hab := (results_wf a b ha).1
-  apply same_eq _ _ (results_wf _ b hab).2 ha (results_normal _ _).2 na
+  apply same_eq
   refine ⟨?_, fun p n => ?_⟩
   · simp [add, sub]
   · rw [(sub_exact _ b hab hb).2, (add_exact a b ha hb).2]; omega
 
 /-- a - a == 0 -/
 theorem sub_self (a : Value) (ha : WF a) : eq (sub a a) ⟨0, []⟩ = true := by
-  apply same_eq _ ⟨0, []⟩ (results_wf a a ha).2 MultiAsset.wf_nil (results_normal _ _).2 (by intro p hp; simp at hp)
+  apply same_eq
   refine ⟨?_, fun p n => ?_⟩
   · simp [sub]
   · rw [(sub_exact a a ha ha).2]; simp [qty, MultiAsset.qty, Dict.getD, Asset.qty]
@@ -157,7 +178,11 @@ end Pyc.C05
 #print axioms Pyc.C05.sub_exact
 #print axioms Pyc.C05.results_normal
 #print axioms Pyc.C05.results_wf
+#print axioms Pyc.C05.eq_iff
 #print axioms Pyc.C05.eq_componentwise
+#print axioms Pyc.C05.eq_refl
+#print axioms Pyc.C05.eq_symm
+#print axioms Pyc.C05.eq_trans
 #print axioms Pyc.C05.le_iff
 #print axioms Pyc.C05.lt_iff_le_ne
 #print axioms Pyc.C05.lt_iff
